@@ -16,9 +16,9 @@ CALL_ARGS = [[], [(1, 9)], [(2, 8), (1, 9), (2, 7)], [(3, -1)], [(5, 1), (3, -2)
 
 def config(quick):
     opt = lambda k, a, b=0: dict(k=k, a=a, b=b)
+    # (the thorough tier widens the contexts and call-site lists, not the logger configurations: the
+    # replayed graph has to stay below a few hundred thousand transitions)
     sa = {"Attrs": [(1, 1), (3, -1)], "CtxKeys": [(1, 0)]}
-    if not quick:
-        sa = {"Attrs": [(1, 1), (3, -1), (2, 2)], "SetKV": [(1, 4)], "CtxKeys": [(1, 0), (2, 0)]}
     return dict(max_loggers=2, init_level=5, names=["a"], bool_lists=[[], [False]], layouts=[""],
                 opt_lists=[[], [opt("Attrs", 2, 2)], [opt("Attrs", 1, 7), opt("Attrs", 3, -2)]],
                 setter_args=sa, acts=["Set", "With", "New", "LogM", "SetAttrsR"], probe_sevs=[4], max_list=2,
